@@ -496,6 +496,19 @@ func (em *emitter) emitAssignmentNode(node *ast.Assignment) {
 	}
 
 	// Emit an assignment.
+	//
+	// In a tuple assignment the operands of the index expressions on the left
+	// are evaluated before any assignment is carried out, so they are kept in
+	// registers of their own and not in the register of a variable that an
+	// assignment on their left may change.
+	own := func(reg int8, typ reflect.Type) int8 {
+		if len(node.Lhs) == 1 {
+			return reg
+		}
+		tmp := em.fb.newRegister(typ.Kind())
+		em.changeRegister(false, reg, tmp, typ, typ)
+		return tmp
+	}
 	addresses := make([]address, len(node.Lhs))
 	for i, v := range node.Lhs {
 		pos := v.Pos()
@@ -527,7 +540,7 @@ func (em *emitter) emitAssignmentNode(node *ast.Assignment) {
 			if exprType.Kind() == reflect.Map {
 				indexType = exprType.Key()
 			}
-			index := em.emitExpr(v.Index, indexType)
+			index := own(em.emitExpr(v.Index, indexType), indexType)
 			switch exprType.Kind() {
 			case reflect.Map:
 				if nonLocalMap, ok := em.varStore.nonLocalVarIndex(v.Expr); ok {
